@@ -19,6 +19,7 @@ from scipy.sparse.linalg import spsolve
 from ..env import pf, EPS
 from .. import universe as U
 from ..opkit import Grid, dense
+from .c15 import fingerprint
 
 ID = "C04"
 LEVEL = "model_checking"
@@ -176,6 +177,7 @@ def _programs_part(g, case, res):
         res["nontrivial"] += 1
         spy = Spy()
         ids_before = [id(t) for t in terms]
+        fp_before = fingerprint(terms)
         ret = pf.solvePDE(phi, terms, externalsolver=spy)
 
         def add(kind, msg):
@@ -186,6 +188,8 @@ def _programs_part(g, case, res):
                           "detail": {"grid": U.spec_id(g.spec), "program": kinds, "setup": setup}})
         if ret is not phi:
             add("returns_other_object", "solvePDE did not return the variable it was given")
+        if fingerprint(terms) != fp_before:
+            add("terms_modified", "solvePDE changed the arrays of the terms it was given (they can no longer be reused in the next step)")
         if [id(t) for t in terms] != ids_before:
             add("term_list_modified", "solvePDE changed the term list it was given (length %d -> %d)" % (len(ids_before), len(terms)))
         full = np.asarray(phi._value, dtype=float).ravel()
@@ -382,7 +386,13 @@ def _sequences_part(g, case, res):
                 res["precond_failed"] = res.get("precond_failed", 0) + 1
                 break
             want = np.linalg.solve(Meq, rref / rs)
+            fp_before = fingerprint(terms)
             ret = pf.solvePDE(phi, terms)
+            if fingerprint(terms) != fp_before:
+                k = "C04:sequence_terms_modified:%s" % g.cls
+                if k not in seen:
+                    seen.add(k)
+                    F.append({"key": k, "msg": "solvePDE (built-in solver) changed the arrays of the terms it was given on %s" % U.spec_id(g.spec), "detail": {}})
             res["evals"] += 1
             res["nontrivial"] += 1
             got = np.asarray(phi._value, dtype=float).ravel()
